@@ -47,6 +47,12 @@ Sub-checks (all lattice sweeps; a case = one configuration, the scripted driver 
            along the mesh (slack 4 ulp), |df(T +- 1e-9) - df(T)| <= 1e-7 at every tenor.  The other model classes (Levy model,
            exponential model with r in {0, 0.02, 0.05}, copula model, plain LevyDrivenSDEModel) on a mesh of [0,10].
 
+Violation keys: C16:euler:<single|coupling-l0|coupled[:fine|:coarse]>:<coefficient function[:how built]>:<failure>:driver-d=<d>:
+<t<first-tenor | t>=first-tenor | no-tenors>:<x0=float|x0=int>[:captured]   and   C16:df:<model class>:<failure>:<where>[:side].
+A violation of the euler sub-check carries the failing word (case field ``only_word``): its replay runs that word alone.
+For the tenor-based functions the class ``t>=first-tenor`` means that some step of the word starts at or after the first
+tenor (the scripts only price products maturing at the first tenor, so only ``t<first-tenor`` is reached by them).
+
 Outside the alphabet (statement silent): times beyond the last tenor (df raises IndexError there); negative rates; the
 value of the rate coefficient functions and of the Libor drift themselves; the decomposition of the solution into
 drift / diffusion / jump parts (only the sum is compared); the maximum-step epsilon handed to the driver (C15); antithetic
@@ -679,11 +685,15 @@ def _sub_euler(sh, case):
         n_ok = 0
         n_words = 0
         last = None
-        words = itertools.chain.from_iterable(
-            itertools.product(range(len(letters)), repeat=n) for n in range(1, case.get("max_steps", 3) + 1))
+        if case.get("only_word") is not None:  # replay of one word of the configuration
+            words = [tuple(case["only_word"])]
+        else:
+            words = itertools.chain.from_iterable(
+                itertools.product(range(len(letters)), repeat=n) for n in range(1, case.get("max_steps", 3) + 1))
         for idx in words:
             word = [letters[i] for i in idx]
             n_words += 1
+            sh.case = dict(case, only_word=list(idx))  # a violation carries the word, so that its replay runs that word alone
             for (name, obj, simulate, seam_owner, seam_attr, det_path, sde_owner) in cfg.objects:
                 path = scripted_path(word, cfg.coupled, cfg.d)
                 keep = (path.jump_times.copy(), path.diffusion_path.copy(), path.jump_path.copy())
@@ -709,6 +719,7 @@ def _sub_euler(sh, case):
                 if cfg.compare(sh, name, obj_model, sde_owner, det_path, res, *keep, what):
                     n_ok += 1
                     last = res
+        sh.case = case
         sh.count("words", n_words)
         sh.nontriv()
         fin = None if last is None else np.round(np.asarray(last.value())[..., -1], 9).tolist()
